@@ -235,3 +235,24 @@ func vpCapacity(min int) int {
 	}
 	return c
 }
+
+// vpGenFilterSmall: six filter shapes (used where the history is long): match
+// everything, one author, one kind, one id, a since/until window, a limit.
+func vpGenFilterSmall(name string) *ReqFilter {
+	f := &ReqFilter{}
+	switch vpChoice(name+".small", 6) {
+	case 1:
+		f.Authors = []string{vpSym1(name + ".author")}
+	case 2:
+		f.Kinds = []int64{vpInt64(name + ".kind")}
+	case 3:
+		f.IDs = []string{vpSym1(name + ".id")}
+	case 4:
+		a, b := vpInt64(name+".since"), vpInt64(name+".until")
+		f.Since, f.Until = &a, &b
+	case 5:
+		l := vpInt64(name + ".limit")
+		f.Limit = &l
+	}
+	return f
+}
